@@ -79,6 +79,7 @@ def run_case(case: Dict) -> CaseResult:
     st: Dict[str, Any] = {"nt_at": None, "seen": set(), "steps": 0, "rich": 0, "pairs": 0, "max_off": 0, "leaves": 0}
 
     values: Dict[tuple, set] = {}
+    flags: set = set()
     masked: set = set()  # component kinds seen with a non-default source value on a node that was not ON
     gated: Dict[str, bool] = {}
     if case["src"] == "gen":
@@ -128,7 +129,10 @@ def run_case(case: Dict) -> CaseResult:
         if reader.pairs:
             st["pairs"] += 1
         for k in reader.masked:
-            masked.add(k + (":gated" if gated.get(k) else ""))
+            if k.startswith("disabled-nic"):
+                flags.add(k)
+            else:
+                masked.add(k + (":gated" if gated.get(k) else ""))
         if off >= 3 and reader.pairs >= 1 and st["nt_at"] is None:
             st["nt_at"] = i
         return True
@@ -155,6 +159,8 @@ def run_case(case: Dict) -> CaseResult:
     res.label(f"leaves<{10 ** len(str(st['leaves']))}")
     for k in sorted(masked):
         res.label("not_on_hides:" + k)
+    for k in sorted(flags):
+        res.label("nonzero:" + k)
     # which kinds of leaf actually moved during the case (took >= 2 different values on one path)
     for kind in sorted({leaf_kind(list(p)) for p, vs in values.items() if len(vs) >= 2}):
         res.label("moved:" + kind)
